@@ -1,6 +1,7 @@
 import Zc.Proofs.DecodeLib
 import Zc.Proofs.DecodeRefute
 import Zc.Proofs.DecodeAgreeMsg
+import Zc.Proofs.Utf8RoundTrip
 /-! # C02 — the decoder is total, bounded and faithful on arbitrary datagrams
 
 `parse b` is the model of `DNSIncoming(b)` followed by `.answers()` (`Zc.Wire.DecodeLib`), a total
@@ -194,6 +195,35 @@ example : Strict.decName [0,0,0,0,0,0,0,0,0,0,0,0, 1,97,1,98,0, 1,99,0xC0,14] 17
     ∧ (match (readName libCfg [0,0,0,0,0,0,0,0,0,0,0,0, 1,97,1,98,0, 1,99,0xC0,14] { off := 17 }).2 with
        | .ok n => decide (n = [[99],[98]])
        | .error _ => false) = true := by
+  decide +kernel
+
+/-! ### labels that are text -/
+
+/-- **Names that came from a `str` are re-encodable.**  If every label of every name in a list is text
+(`Utf8.IsText`: the UTF-8 encoding of Unicode scalar values, i.e. what `str.encode('utf-8')` yields for
+a `str` without lone surrogates) and at most 63 bytes long, then every label's decoded form re-encodes
+to at most 63 bytes — by `Utf8.decode_encode` (`decodeReplace (encode cps) = cps`).  This is the shape
+of C01's `TextLabels` and of `reencodable` below. -/
+theorem names_text_of_str (names : List WName)
+    (h : ∀ n ∈ names, ∀ l ∈ n, Utf8.IsText l ∧ l.length ≤ 63) :
+    ∀ n ∈ names, ∀ l ∈ n, Utf8.reencodedLen l ≤ 63 :=
+  fun n hn l hl => Utf8.reencodedLen_le_of_text (h n hn l hl).1 (h n hn l hl).2
+
+theorem C02_text_is_reencodable (m : WMsg) (h : ∀ n ∈ msgNames m, ∀ l ∈ n, Utf8.IsText l ∧ l.length ≤ 63) :
+    reencodable m = true := by
+  simp only [reencodable, List.all_eq_true, decide_eq_true_eq]
+  exact names_text_of_str (msgNames m) h
+
+/-- **Faithfulness for text names, without the `reencodable` proviso**: the D8 test only ever rejects
+labels that are not text. -/
+theorem C02_agrees_strict_text (b : Bytes) (m : WMsg) (h : Strict.decode b = some m)
+    (hs : Strict.supportedOnly m = true) (ht : ∀ n ∈ msgNames m, ∀ l ∈ n, Utf8.IsText l ∧ l.length ≤ 63) :
+    ∃ p, (parse b).out = .ok p ∧ agrees p m = true :=
+  C02_agrees_strict b m h hs (C02_text_is_reencodable m ht)
+
+/-- text labels exist beyond ASCII: `é`, `日本` and an emoji round-trip through the model -/
+example : Utf8.decodeReplace (Utf8.encode [0xE9, 0x65E5, 0x672C, 0x1F600, 0x41]) = [0xE9, 0x65E5, 0x672C, 0x1F600, 0x41]
+    ∧ Utf8.encode [0xE9, 0x65E5, 0x672C, 0x1F600, 0x41] = [0xC3, 0xA9, 0xE6, 0x97, 0xA5, 0xE6, 0x9C, 0xAC, 0xF0, 0x9F, 0x98, 0x80, 0x41] := by
   decide +kernel
 
 end Zc
